@@ -322,9 +322,18 @@ class P:
         if tok is not None and tok.isdigit():
             self.eat()
             return (f"(some {tok})", "nat")
+        if tok == "this" and self.peek(1) == "->":
+            self.eat(); self.eat()
+            tok = self.peek()
+        if tok in VALUE_HELPERS and self.peek(1) == "(":
+            self.eat()
+            return self.inline_value(tok, None)
         if tok is not None and re.fullmatch(r"[A-Za-z_]\w*", tok):
             self.eat()
             ty = self.env.get(tok)
+            if ty in ("obj", "objmut") and self.peek() == "." and self.peek(1) in VALUE_HELPERS and self.peek(2) == "(":
+                self.eat(".")
+                return self.inline_value(self.eat(), tok)
             if ty in ("ptr", "nat", "bool"):
                 return (f"(some {lname(tok)})", ty)
             if ty in ("obj", "objmut") and self.peek() == ".":
@@ -335,6 +344,18 @@ class P:
                 return (f"(some {lname(tok)}_{lname(f)})", FIELDS[f])
             self.refuse(f"identifier {tok!r}")
         self.refuse("expression")
+
+    def inline_value(self, name, recv):
+        """a call of a pure value-returning helper: its returned expression with the arguments substituted"""
+        names, body = VALUE_HELPERS[name]
+        args = split_args(self)
+        if len(args) != len(names):
+            self.refuse(f"number of arguments of {name}")
+        q = P(substitute(body, names, args, recv), self.fn, self.env)
+        a = q.expr()
+        if q.peek() is not None:
+            self.refuse(f"body of {name}")
+        return a
 
     # ---- statements: `stmts(k)` = Lean lines of the statement list followed by the continuation `k` (a list of lines) ----
     def selfobj(self):
@@ -356,6 +377,12 @@ class P:
                 self.refuse(f"member {f}")
             return f"{lname(nm)}_{lname(f)}", FIELDS[f]
         self.refuse(f"assignment to {nm!r}")
+
+    def count_args(self):
+        """number of arguments of the call `name (` at the cursor (without consuming)"""
+        q = P(self.t, self.fn, self.env)
+        q.i = self.i + 1
+        return len(split_args(q))
 
     def try_lvalue(self):
         tok = self.peek()
@@ -402,23 +429,38 @@ class P:
             if ty != "ptr" or z != "0":
                 self.refuse("store through a pointer other than `*p = 0`")
             return [f"store0 (some {nm})"]
+        # a statement helper with reference parameters: inlined (the references are the argument lvalues themselves)
+        if tok in MACRO_HELPERS and self.peek(1) == "(" and len(MACRO_HELPERS[tok][0]) == self.count_args():
+            self.eat()
+            names, refs, body = MACRO_HELPERS[tok]
+            args = split_args(self)
+            self.eat(";")
+            q = P(substitute(body, names, args, None, [not r for r in refs]), self.fn, self.env)
+            lines = []
+            while q.peek() is not None:
+                if q.peek() in ("return", "if", "{"):
+                    self.refuse(f"control flow in the inlined helper {tok}")
+                lines += q.simple()
+            for k_, v_ in q.env.items():
+                self.env.setdefault(k_, v_)
+            return lines
         # a call of another member function on this object: `resize(e);` `reserve(e);` `helper(e, ...);`
         if tok is not None and self.peek(1) == "(" and tok in CALLABLE:
-            self.eat(); self.eat("(")
-            args = []
-            while self.peek() != ")":
-                a = self.expr()
-                if a[1] != "nat":
-                    self.refuse(f"argument of {tok}")
-                args.append(a[0])
-                if self.peek() == ",":
-                    self.eat(",")
-            self.eat(")"); self.eat(";")
-            lean, nparams = CALLABLE[tok]()
-            if nparams != len(args):
+            self.eat()
+            lean, ptypes = CALLABLE[tok]()
+            argtoks = split_args(self)
+            self.eat(";")
+            if len(ptypes) != len(argtoks):
                 self.refuse(f"number of arguments of {tok}")
-            lines = [f"let a{i}_ ← val {a}" for i, a in enumerate(args)]
-            return lines + [f"let o_ ← {lean} self {self.selfobj()} " + " ".join(f"a{i}_" for i in range(len(args))),
+            lines, names = [], []
+            for i, (toks, ty) in enumerate(zip(argtoks, ptypes)):
+                q = P(toks, self.fn, self.env)
+                a = q.expr()
+                if q.peek() is not None or a[1] != ty:
+                    self.refuse(f"argument {i + 1} of {tok}")
+                lines.append(f"let a{i}_ ← val {a[0]}")
+                names.append(f"a{i}_")
+            return lines + [f"let o_ ← {lean} self {self.selfobj()} " + " ".join(names),
                             "let buffer := o_.buffer", "let bufferStart := o_.bufferStart", "let bufferEnd := o_.bufferEnd",
                             "let cap := o_.capacity"]
         # declaration
@@ -428,6 +470,8 @@ class P:
             ty0 = self.eat()
             if ty0 == "byte":
                 self.eat("*")
+                if self.peek() == "const":
+                    self.eat()
                 ty = "ptr"
             elif ty0 == "usize":
                 ty = "nat"
@@ -659,6 +703,42 @@ def translate(name, kind, params_text, init_text, body_text):
     return "\n".join(out)
 
 
+VALUE_HELPERS = {}  # C++ name -> (parameter names, tokens of the returned expression): `T name(params) [const] {return e;}`, inlined
+MACRO_HELPERS = {}  # C++ name -> (parameter names, is-reference flags, body tokens): statement helpers with reference parameters, inlined
+
+
+def split_args(p):
+    """the token lists of the arguments of a call whose `(` is at the cursor of parser `p`; consumes through `)`"""
+    p.eat("(")
+    args, cur, depth = [], [], 0
+    while True:
+        t = p.eat()
+        if t == ")" and depth == 0:
+            break
+        if t == "," and depth == 0:
+            args.append(cur); cur = []
+            continue
+        depth += (t in "([") - (t in ")]")
+        cur.append(t)
+    if cur:
+        args.append(cur)
+    return args
+
+
+def substitute(body, names, args, recv=None, paren=None):
+    """body tokens with parameter names replaced by the argument tokens and, for a call on another object, members by `recv.member`"""
+    out = []
+    for i, t in enumerate(body):
+        if t in names and not (i > 0 and body[i - 1] in (".", "->")):
+            a = args[names.index(t)]
+            out += (["("] + a + [")"]) if (paren is None or paren[names.index(t)]) else a
+        elif recv and t in FIELDS and not (i > 0 and body[i - 1] in (".", "->")):
+            out += [recv, ".", t]
+        else:
+            out.append(t)
+    return out
+
+
 CALLABLE = {}     # C++ name of a member function that may be called as a statement -> thunk returning (Lean name, number of parameters)
 
 
@@ -675,21 +755,34 @@ def generate(repo):
         busy.add(name)
         params, init, body = extract(src, name, rx)
         text = translate(name, kind, params, init, body)
-        nparams = len(parse_params(name, params))
+        ptypes = [t for _, t in parse_params(name, params)]
         defs.append(text)
         busy.discard(name)
-        done[name] = (name, nparams)
+        done[name] = (name, ptypes)
         return done[name]
 
-    CALLABLE.clear()
-    for cpp in ("resize", "reserve", "removeFront", "removeBack", "clear", "free"):
+    CALLABLE.clear(); VALUE_HELPERS.clear(); MACRO_HELPERS.clear()
+    for cpp in ("resize", "reserve", "removeFront", "removeBack", "clear", "free", "assign"):
         CALLABLE[cpp] = (lambda c=cpp: emit(c, *known[c]))
-    # private helpers: every other `void name(usize ...)` member that takes integers only
-    for m in re.finditer(r"void\s+(\w+)\s*\(\s*((?:usize\s+\w+\s*,?\s*)*)\)\s*\{", src):
-        cpp = m.group(1)
-        if cpp in CALLABLE or cpp in ("attach", "assign", "prepend", "append", "swap"):
+    PARAM = r"(?:const\s+)?(?:byte\s*\*\s*(?:const\s*)?&?|usize)\s*\w+"
+    # pure value-returning helpers `T name(params) [const] {return e;}`
+    for m in re.finditer(r"(?:byte\s*\*|usize|bool)\s+(\w+)\s*\(\s*((?:" + PARAM + r"\s*,?\s*)*)\)\s*(?:const\s*)?\{\s*return\s+([^;{}]*);\s*\}", src):
+        names = [re.search(r"(\w+)\s*$", x).group(1) for x in m.group(2).split(",") if x.strip()]
+        VALUE_HELPERS[m.group(1)] = (names, tokenize(m.group(3)))
+    # statement helpers: `[static] void name(params) {…}` that are not the public methods above
+    for m in re.finditer(r"(static\s+)?void\s+(\w+)\s*\(\s*((?:" + PARAM + r"\s*,?\s*)*)\)\s*\{", src):
+        cpp, ptext = m.group(2), m.group(3)
+        if any(re.fullmatch(rx + r"\s*\{", m.group(0).replace("static ", "")) for rx, _ in known.values()):
             continue
-        rx = r"void\s+" + cpp + r"\s*\(\s*(?:usize\s+\w+\s*,?\s*)*\)"
+        parts = [x.strip() for x in ptext.split(",") if x.strip()]
+        if m.group(1) or any("&" in x for x in parts):
+            end = balanced(src, m.end() - 1)
+            names = [re.search(r"(\w+)\s*$", x).group(1) for x in parts]
+            MACRO_HELPERS[cpp] = (names, ["&" in x for x in parts], tokenize(src[m.end():end - 1]))
+            continue
+        if cpp in CALLABLE:
+            continue
+        rx = r"void\s+" + cpp + r"\s*\(\s*" + re.escape(ptext.strip()).replace(r"\ ", r"\s*") + r"\s*\)"
         CALLABLE[cpp] = (lambda c=cpp, r=rx: emit("helper_" + c, r, "void"))
     for name, rx, kind in METHODS:
         emit(name, rx, kind)
